@@ -200,13 +200,14 @@ class CliCampaign:
         self.n = 0
 
     def add(self, text, order, filt="Any", retain="Any", model=False, table=True, vars_=False, export=False, dot=False,
-            ptree=False, channel="evaluate", bench=None, key_extra="", order_for_key=None, api=False):
+            ptree=False, channel="evaluate", bench=None, key_extra="", order_for_key=None, api=False, base=None):
         fsp = self.rnd.choice(FILTER_SPELLINGS[filt])
         rsp = self.rnd.choice(FILTER_SPELLINGS[retain])
         okey = order if order_for_key is None else order_for_key
         key = hashlib.sha1(json.dumps([text, okey, filt, retain, model, table, vars_, export, key_extra]).encode()).hexdigest()[:20]
         self.items.append(dict(text=text, order=order, filter=filt, fsp=fsp, retain=retain, rsp=rsp, model=model, table=table,
-                               vars=vars_, export=export, dot=dot, ptree=ptree, channel=channel, bench=bench, key=key, api=api))
+                               vars=vars_, export=export, dot=dot, ptree=ptree, channel=channel, bench=bench, key=key, api=api, base=base))
+        return len(self.items) - 1
 
     def execute(self):
         """run the binary for every item (16 parallel), then describe all inputs with the harness"""
@@ -304,6 +305,7 @@ class CliCampaign:
             canon = {n: "n%d" % (i + 1) for i, n in enumerate(names)}
             ev["names"] = names
             ev["ast"] = dsc.get("ast", [])
+            ev.update(has_base=False, base_rows=[])
             ev.update(has_table=False, has_vars=False, has_export=False, has_dot=False, has_ptree=False, has_api=False,
                       header=[], rows=[], vlines=[], order_export=[], dot={"nodes": [], "edges": []}, ptree={"nodes": [], "edges": []},
                       api_tt=[], api_ok=True)
@@ -355,6 +357,15 @@ class CliCampaign:
                     ev["has_api"] = True
                     ev["api_tt"] = api["tt"]
                     ev["api_ok"] = api["ok"]
+            if it.get("base") is not None and it["exit"] == 0:
+                b = self.items[it["base"]]
+                try:
+                    bexp, bheader, brows, bvl = parse_stdout(b["stdout"].decode("utf-8"))
+                    if b["exit"] == 0 and bheader is not None and [canon[h] for h in bheader] == ev["header"]:
+                        ev["has_base"] = True
+                        ev["base_rows"] = brows
+                except (ValueError, KeyError, UnicodeDecodeError):
+                    pass
             if bad:
                 self.run.violation("cli:%s:unreadable" % self.label, "%s (argv %s)" % (bad, it["argv"]),
                                    {"mode": "cli-run", "item": {k: it[k] for k in ("text", "order", "argv", "filter", "retain", "model")}})
@@ -626,6 +637,11 @@ def cli_model_retain(run, which):
             for flt in ("Any", "True"):
                 camp.add(text, rnd.choice(ovs), model=True, filt=flt, channel=rnd.choice(["evaluate", "file", "stdin"]))
             camp.add(text, rnd.choice(ovs), model=True, filt="False")
+            # -m together with -c: retain first, then extract the model of the retained diagram
+            for rt in ("True", "False"):
+                o = rnd.choice(ovs)
+                base = camp.add(text, o, retain=rt, filt="Any")
+                camp.add(text, o, retain=rt, model=True, filt=rnd.choice(["Any", "True"]), base=base)
         else:
             for rt in ("True", "False", "Any"):
                 camp.add(text, rnd.choice(ovs), retain=rt, filt=rnd.choice(["Any", "True", "False"]))
